@@ -9,7 +9,7 @@ pub fn c16_check<L: KeyboardLayout>(name: &str, l: &L) {
     let m = any_mods();
     let h = any_mode();
     let out = l.map_keycode(k, &m, h);
-    println!("C16 {} key={:?} mods={:?} mode={:?} out={:?}", name, k, m, h, out);
+    crate::show!("C16 {} key={:?} mods={:?} mode={:?} out={:?}", name, k, m, h, out);
     if let DecodedKey::RawKey(r) = out {
         let alias_ok = match numpad_digit(k) {
             Some((_, Some(a))) => !m.numlock && r == a,
